@@ -47,12 +47,16 @@ def _ite(c, a, b):
 
 
 def _max2(x, y):
+    if _isnan1(x) or _isnan1(y):
+        return _np.float64("nan")       # numpy: max / min propagate NaN
     if isinstance(x, Sym) or isinstance(y, Sym):
         return _ite(_t(x) >= _t(y), x, y)
     return x if x >= y else y
 
 
 def _min2(x, y):
+    if _isnan1(x) or _isnan1(y):
+        return _np.float64("nan")
     if isinstance(x, Sym) or isinstance(y, Sym):
         return _ite(_t(x) <= _t(y), x, y)
     return x if x <= y else y
@@ -192,6 +196,14 @@ class _SNP(types.ModuleType):
             return self._reduce(a, _max2)
         return _np.max(a, *args, **kw)
     amax = max
+
+    def nanmax(self, a, *args, **kw):
+        if _is_obj(a) and not args and not kw and a.size:
+            vals = [v for v in a.ravel() if not _isnan1(v)]
+            if not vals:
+                return _np.float64("nan")
+            return self._reduce(_np.array(vals, dtype=object), _max2)
+        return _np.nanmax(a, *args, **kw)
 
     def min(self, a, *args, **kw):
         if _is_obj(a) and not args and not kw and a.size:
